@@ -55,7 +55,10 @@ Record HBInv (c : config) (s : state) : Prop := {
                content s i = FEmpty /\ hb s i = HNone /\ (i < nexti s)%nat;
   HB_file : forall i, file s = Some i -> (i < nexti s)%nat;
   HB_fresh : forall i, (nexti s <= i)%nat -> content s i = FEmpty;
-  HB_created_uniq : forall t1 t2 e1 e2 i, cs s t1 = CCreated e1 i -> cs s t2 = CCreated e2 i -> t1 = t2
+  HB_created_uniq : forall t1 t2 e1 e2 i, cs s t1 = CCreated e1 i -> cs s t2 = CCreated e2 i -> t1 = t2;
+  HB_held : forall t i, cs s t = CHolding i -> hb s i <> HNone;
+  HB_proc : forall t i q, cs s t = CHolding i -> hb_proc (hb s i) = Some q -> q = cproc s t;
+  HB_time : forall i cr u, content s i = FMeta cr (Some u) -> u <= now s
 }.
 
 Definition good_cfg (c : config) : Prop :=
@@ -256,6 +259,45 @@ Proof.
     + destruct (kill_cs_cases p (cproc s) (cs s) t1) as [E1|[E1 _]]; rewrite E1 in H1; [|discriminate].
       destruct (kill_cs_cases p (cproc s) (cs s) t2) as [E2|[E2 _]]; rewrite E2 in H2; [|discriminate].
       eapply Hcu; eassumption.
+  - (* HB_held *)
+    pose proof (HB_held c s HI) as Hh. pose proof (HB_lt c s HI) as Hlt. pose proof (HB_created c s HI) as Hcr.
+    inv_step Hstep; cbn [cs hb set_cs]; intros t' i' H'.
+    all: try (destruct (Nat.eq_dec t' t) as [->|Hne]; [rewrite upd_eq in H'; try discriminate | rewrite upd_neq in H' by assumption]).
+    all: try (eapply Hh; eassumption).
+    all: try solve [destruct (Nat.eq_dec i' i) as [->|Hni]; [rewrite upd_eq; discriminate | rewrite upd_neq by assumption; eapply Hh; eassumption]].
+    + assert ((i' < nexti s)%nat) by (apply Hlt; eapply Hh; eassumption). rewrite upd_neq by lia. eapply Hh; eassumption.
+    + injection H'; intros <-. rewrite upd_eq. discriminate.
+    + destruct (kill_cs_cases p (cproc s) (cs s) t') as [E|[E _]]; rewrite E in H'; [|discriminate].
+      pose proof (Hh _ _ H') as Hx. destruct (kill_hb_cases p (hb s) i') as [E2|[E2 _]]; rewrite E2; [assumption | discriminate].
+  - (* HB_proc *)
+    pose proof (HB_proc c s HI) as Hp. pose proof (HB_held c s HI) as Hh. pose proof (HB_lt c s HI) as Hlt.
+    pose proof (HB_created c s HI) as Hcr. pose proof (HB_trunc c s HI) as Htr.
+    inv_step Hstep; cbn [cs hb cproc set_cs]; intros t' i' q H' Hq.
+    all: try (destruct (Nat.eq_dec t' t) as [->|Hne]; [rewrite upd_eq in H'; try discriminate | rewrite upd_neq in H' by assumption]).
+    all: try (eapply Hp; eassumption).
+    + (* start: cproc changes only for the starting thread *)
+      rewrite upd_neq by assumption. eapply Hp; eassumption.
+    + assert ((i' < nexti s)%nat) by (apply Hlt; eapply Hh; eassumption). rewrite upd_neq in Hq by lia. eapply Hp; eassumption.
+    + injection H'; intros <-. rewrite upd_eq in Hq. cbn in Hq. congruence.
+    + (* write meta, another holder *)
+      assert (i' <> i) by (intros ->; destruct (Hcr _ _ _ Ecs) as (_ & E & _); exact (Hh _ _ H' E)).
+      rewrite upd_neq in Hq by assumption. eapply Hp; eassumption.
+    + destruct (Nat.eq_dec i' i) as [->|Hni]; [rewrite upd_eq in Hq; discriminate | rewrite upd_neq in Hq by assumption; eapply Hp; eassumption].
+    + destruct (Nat.eq_dec i' i) as [->|Hni]; [rewrite upd_eq in Hq; discriminate | rewrite upd_neq in Hq by assumption; eapply Hp; eassumption].
+    + destruct (Nat.eq_dec i' i) as [->|Hni]; [rewrite upd_eq in Hq; cbn in Hq; apply (Hp t' i); [assumption | rewrite Ehb; exact Hq] | rewrite upd_neq in Hq by assumption; eapply Hp; eassumption].
+    + destruct (Nat.eq_dec i' i) as [->|Hni]; [rewrite upd_eq in Hq; discriminate | rewrite upd_neq in Hq by assumption; eapply Hp; eassumption].
+    + destruct (Nat.eq_dec i' i) as [->|Hni]; [rewrite upd_eq in Hq; discriminate | rewrite upd_neq in Hq by assumption; eapply Hp; eassumption].
+    + destruct (Nat.eq_dec i' i) as [->|Hni]; [rewrite upd_eq in Hq; cbn in Hq; apply (Hp t' i); [assumption | rewrite Ehb; exact Hq] | rewrite upd_neq in Hq by assumption; eapply Hp; eassumption].
+    + destruct (kill_cs_cases p (cproc s) (cs s) t') as [E|[E _]]; rewrite E in H'; [|discriminate].
+      destruct (kill_hb_cases p (hb s) i') as [E2|[E2 _]]; rewrite E2 in Hq; [eapply Hp; eassumption | discriminate].
+  - (* HB_time *)
+    pose proof (HB_time c s HI) as Ht. pose proof (HB_trunc c s HI) as Htr.
+    inv_step Hstep; cbn [content now set_cs]; intros i' cr' u' H'; try (eapply Ht; eassumption).
+    + apply Ht in H'. apply andb_true_iff in Eb. destruct Eb as [Eb _]. apply Z.leb_le in Eb. lia.
+    + destruct (Nat.eq_dec i' (nexti s)) as [->|Hni]; [rewrite upd_eq in H'; discriminate | rewrite upd_neq in H' by assumption; eapply Ht; eassumption].
+    + destruct (Nat.eq_dec i' i) as [->|Hni]; [rewrite upd_eq in H'; injection H'; intros; lia | rewrite upd_neq in H' by assumption; eapply Ht; eassumption].
+    + destruct (Nat.eq_dec i' i0) as [->|Hni]; [rewrite upd_eq in H'; discriminate | rewrite upd_neq in H' by assumption; eapply Ht; eassumption].
+    + destruct (Nat.eq_dec i' target) as [->|Hni]; [rewrite upd_eq in H'; injection H'; intros; lia | rewrite upd_neq in H' by assumption; eapply Ht; eassumption].
 Qed.
 
 Lemma HBInv_reach ok s : reach c ok init s -> HBInv c s.
@@ -521,4 +563,237 @@ Proof.
   intros Hs Hh Hn. inv_step Hs; cbn [cs set_cs] in Hn; eauto; try congruence.
   all: try (destruct (Nat.eq_dec t t0) as [->|Hne]; [congruence | rewrite upd_neq in Hn by assumption; congruence]).
   destruct (Nat.eq_dec t t0) as [->|Hne]; [left; reflexivity | rewrite upd_neq in Hn by assumption; congruence].
+Qed.
+
+(** * Part C: cancellation *)
+
+(** from every select, a cancelled context makes Lock return ctx.Err() at once *)
+Theorem cancel_prompt c s t ec until : cs s t = CSleep ec until ->
+  exists s', step c s (LCancel t) = Some s' /\ cs s' t = CFailed ErrCtx /\ now s' = now s.
+Proof.
+  intros H. cbn [step]. rewrite H. eexists. split; [reflexivity|]. cbn. rewrite upd_eq. auto.
+Qed.
+
+(** ... and the select is the only place where a Lock call waits: in every other state of
+    the call the thread's own next step is enabled without time passing (the metadata
+    write only needs a clock reading later than the previous creation's) *)
+Theorem lock_call_waits_only_in_select c s t :
+  match cs s t with
+  | CTry _ => exists s', step c s (LTryCreate t) = Some s'
+  | CExists _ => exists s', step c s (LOpenRead t) = Some s'
+  | CStale _ => exists s', step c s (LRemove t) = Some s'
+  | CCreated _ _ => lastcreate s < now s -> exists s', step c s (LWriteMeta t) = Some s'
+  | _ => True
+  end.
+Proof.
+  destruct (cs s t) eqn:E; auto; cbn [step]; rewrite E.
+  - destruct (file s); eauto.
+  - intros H. apply Z.ltb_lt in H. rewrite H. eauto.
+  - destruct (file s) as [i|]; [|eauto]. destruct (content s i); [destruct (S ec <? retries c)%nat | destruct (is_stale c (now s) created updated) |]; eauto.
+  - eauto.
+Qed.
+
+(** * Part D: recovery after the holder's death *)
+
+(** the lock file (inode [i]) is in place but nobody maintains it: no creator is about to
+    write its metadata and its heartbeat is not running *)
+Definition abandoned (s : state) (i : ino) : Prop :=
+  file s = Some i /\ (forall t ec, cs s t <> CCreated ec i) /\
+  (forall p cr due, hb s i <> HSleep p cr due) /\ (forall p cr j fcr, hb s i <> HTrunc p cr j fcr).
+
+Section PartD.
+Variable c : config.
+Hypothesis Hchk : checks c = true.
+Hypothesis Hcfg : good_cfg c.
+
+(** killing the holder's process abandons its lock file: the heartbeat dies with it *)
+Lemma kill_abandons s t i s' : HBInv c s -> cs s t = CHolding i -> file s = Some i ->
+  step c s (LKill (cproc s t)) = Some s' -> abandoned s' i.
+Proof.
+  intros HB Hh Hf Hs. cbn [step] in Hs. injection Hs as <-. unfold abandoned. cbn [file cs hb].
+  pose proof (HB_held c s HB _ _ Hh) as Hne. pose proof (fun q => HB_proc c s HB t i q) as Hp.
+  split; [assumption|]. split; [|split].
+  - intros t' ec H. destruct (kill_cs_cases (cproc s t) (cproc s) (cs s) t') as [E|[E _]]; rewrite E in H; [|discriminate].
+    destruct (HB_created c s HB _ _ _ H) as (_ & E2 & _). contradiction.
+  - intros p cr due H. destruct (kill_hb_cases (cproc s t) (hb s) i) as [E|[E _]]; rewrite E in H; [|discriminate].
+    assert (Hq := Hp p Hh ltac:(rewrite H; reflexivity)). subst p.
+    unfold kill_hb in E. rewrite H in E. cbn in E. rewrite Nat.eqb_refl in E. discriminate.
+  - intros p cr j fcr H. destruct (kill_hb_cases (cproc s t) (hb s) i) as [E|[E _]]; rewrite E in H; [|discriminate].
+    assert (Hq := Hp p Hh ltac:(rewrite H; reflexivity)). subst p.
+    unfold kill_hb in E. rewrite H in E. cbn in E. rewrite Nat.eqb_refl in E. discriminate.
+Qed.
+
+(** while an abandoned lock file stays in place nobody writes it, and it stays abandoned *)
+Lemma abandoned_step s l s' i : HBInv c s -> abandoned s i -> step c s l = Some s' -> file s' = Some i ->
+  content s' i = content s i /\ abandoned s' i.
+Proof.
+  intros HB (Hf & Hnc & Hns & Hnt) Hs Hf'. unfold abandoned.
+  pose proof (HB_file c s HB i Hf) as Hlt. pose proof (HB_trunc c s HB) as Htr.
+  destruct l; cbn [step] in Hs.
+  - destruct (can_tick c s d); [|discriminate]. injection Hs as <-. cbn in *. auto.
+  - destruct (cs s t) eqn:Ecs; try discriminate. injection Hs as <-. cbn [file cs hb content] in *.
+    split; [reflexivity|]. split; [assumption|]. split; [|auto].
+    intros t' ec. destruct (Nat.eq_dec t' t) as [->|Hne]; [rewrite upd_eq; discriminate | rewrite upd_neq by assumption; apply Hnc].
+  - destruct (cs s t) eqn:Ecs; try discriminate. rewrite Hf in Hs. injection Hs as <-. cbn [file cs hb content set_cs] in *.
+    split; [reflexivity|]. split; [assumption|]. split; [|auto].
+    intros t' ec'. destruct (Nat.eq_dec t' t) as [->|Hne]; [rewrite upd_eq; discriminate | rewrite upd_neq by assumption; apply Hnc].
+  - destruct (cs s t) eqn:Ecs; try discriminate. destruct (lastcreate s <? now s); [|discriminate].
+    injection Hs as <-. cbn [file cs hb content] in *.
+    assert (i <> i0) by (intros ->; exact (Hnc _ _ Ecs)).
+    rewrite !upd_neq by assumption. split; [reflexivity|]. split; [assumption|]. split; [|auto].
+    intros t' ec'. destruct (Nat.eq_dec t' t) as [->|Hne]; [rewrite upd_eq; discriminate | rewrite upd_neq by assumption; apply Hnc].
+  - destruct (cs s t) eqn:Ecs; try discriminate.
+    assert (Hgen : forall x, (forall e, x <> CCreated e i) -> content (set_cs s t x) i = content s i /\
+              file (set_cs s t x) = Some i /\ (forall t' e, cs (set_cs s t x) t' <> CCreated e i) /\
+              (forall p cr due, hb (set_cs s t x) i <> HSleep p cr due) /\ (forall p cr j fcr, hb (set_cs s t x) i <> HTrunc p cr j fcr)).
+    { intros x Hx. cbn. split; [reflexivity|]. split; [assumption|]. split; [|auto].
+      intros t' e. destruct (Nat.eq_dec t' t) as [->|Hne]; [rewrite upd_eq; apply Hx | rewrite upd_neq by assumption; apply Hnc]. }
+    rewrite Hf in Hs. destruct (content s i); [destruct (S ec <? retries c)%nat | destruct (is_stale c (now s) created updated) |];
+      injection Hs as <-; apply Hgen; intros; discriminate.
+  - destruct (cs s t) eqn:Ecs; try discriminate. injection Hs as <-. cbn in Hf'. discriminate.
+  - destruct (cs s t) eqn:Ecs; try discriminate. destruct (until <=? now s); [|discriminate]. injection Hs as <-.
+    cbn [file cs hb content set_cs] in *. split; [reflexivity|]. split; [assumption|]. split; [|auto].
+    intros t' ec'. destruct (Nat.eq_dec t' t) as [->|Hne]; [rewrite upd_eq; discriminate | rewrite upd_neq by assumption; apply Hnc].
+  - destruct (cs s t) eqn:Ecs; try discriminate. injection Hs as <-.
+    cbn [file cs hb content set_cs] in *. split; [reflexivity|]. split; [assumption|]. split; [|auto].
+    intros t' ec'. destruct (Nat.eq_dec t' t) as [->|Hne]; [rewrite upd_eq; discriminate | rewrite upd_neq by assumption; apply Hnc].
+  - destruct (cs s t) eqn:Ecs; try discriminate. injection Hs as <-. cbn in Hf'. discriminate.
+  - (* heartbeat wake: of another inode *)
+    destruct (hb s i0) as [|p cr due| |] eqn:Ehb; try discriminate.
+    assert (Hne : i <> i0) by (intros ->; exact (Hns _ _ _ Ehb)).
+    destruct (due <=? now s); [|discriminate]. rewrite Hf in Hs.
+    assert (Hdone : content (State (now s) (Some i) (content s) (nexti s) (cs s) (cproc s) (tids s) (upd (hb s) i0 HDone) (lastcreate s)) i = content s i /\
+              Some i = Some i /\ (forall t' e, cs s t' <> CCreated e i) /\
+              (forall p cr due, upd (hb s) i0 HDone i <> HSleep p cr due) /\ (forall p cr j fcr, upd (hb s) i0 HDone i <> HTrunc p cr j fcr)).
+    { cbn. rewrite upd_neq by assumption. auto. }
+    destruct (content s i) as [|fcr u|] eqn:Ect; try (injection Hs as <-; exact Hdone).
+    destruct (checks c && negb (opt_eqb fcr (Some cr))) eqn:Eck; [injection Hs as <-; exact Hdone|].
+    destruct (wake_target c Hchk s i0 p cr due i fcr u HB Ehb Ect Eck) as [E _]. contradiction.
+  - (* heartbeat write: to its own inode *)
+    destruct (hb s i0) as [| |p cr j fcr|] eqn:Ehb; try discriminate. injection Hs as <-.
+    destruct (Htr _ _ _ _ _ Ehb) as [-> ->].
+    assert (Hne : i <> i0) by (intros ->; exact (Hnt _ _ _ _ Ehb)).
+    cbn [file cs hb content] in *. rewrite !upd_neq by assumption. auto.
+  - (* kill *)
+    injection Hs as <-. cbn [file cs hb content] in *. split; [reflexivity|]. split; [assumption|]. split; [|split].
+    + intros t' e H. destruct (kill_cs_cases p (cproc s) (cs s) t') as [E|[E _]]; rewrite E in H; [exact (Hnc _ _ H) | discriminate].
+    + intros p' cr due H. destruct (kill_hb_cases p (hb s) i) as [E|[E _]]; rewrite E in H; [exact (Hns _ _ _ H) | discriminate].
+    + intros p' cr j fcr H. destruct (kill_hb_cases p (hb s) i) as [E|[E _]]; rewrite E in H; [exact (Hnt _ _ _ _ H) | discriminate].
+Qed.
+
+(** once the name points elsewhere (or nowhere) it never points to inode [i] again *)
+Lemma gone_step s l s' i : (i < nexti s)%nat -> file s <> Some i -> step c s l = Some s' ->
+  (i < nexti s')%nat /\ file s' <> Some i.
+Proof.
+  intros Hlt Hf Hs. inv_step Hs; cbn [file nexti set_cs]; try (split; [lia | congruence]).
+  all: try (split; [lia | discriminate]).
+  split; [lia|]. intros E. injection E; intros <-. lia.
+Qed.
+
+Lemma abandoned_run ls : forall s s' i, HBInv c s -> abandoned s i -> run c s ls = Some s' -> file s' = Some i ->
+  content s' i = content s i /\ abandoned s' i /\ HBInv c s' /\ now s <= now s'.
+Proof.
+  induction ls as [|l ls IH]; intros s s' i HB Ha; cbn [run].
+  - intros H _; injection H; intros <-. split; [reflexivity|]. split; [assumption|]. split; [assumption | lia].
+  - destruct (step c s l) as [s1|] eqn:E; [|discriminate]. intros Hr Hf'.
+    pose proof (HBInv_step c Hchk Hcfg s l s1 HB E) as HB1.
+    assert (Hnow : now s <= now s1).
+    { clear - E. inv_step E; cbn; try lia. apply andb_true_iff in Eb. destruct Eb as [Eb _]. apply Z.leb_le in Eb. lia. }
+    assert (Hdec : file s1 = Some i \/ file s1 <> Some i).
+    { destruct (file s1) as [j|]; [destruct (Nat.eq_dec j i); [left; congruence | right; congruence] | right; discriminate]. }
+    destruct Hdec as [Hf1|Hf1].
+    + destruct (abandoned_step s l s1 i HB Ha E Hf1) as [Hc1 Ha1].
+      destruct (IH s1 s' i HB1 Ha1 Hr Hf') as (H1 & H2 & H3 & H4). split; [congruence|]. split; [assumption|]. split; [assumption | lia].
+    + exfalso. destruct Ha as (Hf & _). pose proof (HB_file c s HB i Hf) as Hlt.
+      assert (Hg : (i < nexti s1)%nat /\ file s1 <> Some i).
+      { split; [|assumption]. clear - E Hlt. inv_step E; cbn; lia. }
+      clear - Hg Hr Hf'. revert s1 Hg Hr. induction ls as [|l' ls IH']; intros s1 [Hg1 Hg2]; cbn [run].
+      * intros H; injection H; intros <-. contradiction.
+      * destruct (step c s1 l') as [s2|] eqn:E2; [|discriminate]. apply IH'. exact (gone_step s1 l' s2 i Hg1 Hg2 E2).
+Qed.
+
+(** a waiter at the top of its loop obtains a stale lock by its own next four steps *)
+Lemma stale_obtainable s i cr u w ec : file s = Some i -> content s i = FMeta cr u ->
+  is_stale c (now s) cr u = true -> cs s w = CTry ec ->
+  exists s4 ec', run c s [LTryCreate w; LOpenRead w; LRemove w; LTryCreate w] = Some s4 /\
+                 cs s4 w = CCreated ec' (nexti s) /\ file s4 = Some (nexti s) /\ now s4 = now s.
+Proof.
+  intros Hf Hc Hst Hw.
+  set (s1 := set_cs s w (CExists ec)).
+  assert (E1 : step c s (LTryCreate w) = Some s1) by (cbn [step]; rewrite Hw, Hf; reflexivity).
+  set (ec' := if resets c then 0%nat else ec).
+  set (s2 := set_cs s1 w (CStale ec')).
+  assert (E2 : step c s1 (LOpenRead w) = Some s2).
+  { cbn [step]. unfold s1. cbn [cs set_cs file content now]. rewrite upd_eq, Hf, Hc, Hst. reflexivity. }
+  set (s3 := State (now s2) None (content s2) (nexti s2) (upd (cs s2) w (CTry ec')) (cproc s2) (tids s2) (hb s2) (lastcreate s2)).
+  assert (E3 : step c s2 (LRemove w) = Some s3).
+  { cbn [step]. unfold s2 at 1. cbn [cs set_cs]. rewrite upd_eq. reflexivity. }
+  assert (E4 : exists s4, step c s3 (LTryCreate w) = Some s4 /\ cs s4 w = CCreated ec' (nexti s) /\ file s4 = Some (nexti s) /\ now s4 = now s).
+  { cbn [step]. unfold s3 at 1 2. cbn [cs file]. rewrite upd_eq. eexists. split; [reflexivity|].
+    cbn. rewrite upd_eq. auto. }
+  destruct E4 as (s4 & E4 & H1 & H2 & H3).
+  exists s4, ec'. cbn [run]. rewrite E1, E2, E3, E4. auto.
+Qed.
+
+(** Recovery.  The holder's process is killed in a reachable state [s0].  In every later
+    state in which the dead lock file is still in place and more than factor * interval
+    has passed since the kill, its content is unchanged and stale, and any waiter at the
+    top of its loop obtains the lock by its own next four steps (no time needed). *)
+Theorem stale_recovers s0 t i cr u s ls s' w ec :
+  HBInv c s0 -> cs s0 t = CHolding i -> file s0 = Some i -> content s0 i = FMeta cr (Some u) ->
+  step c s0 (LKill (cproc s0 t)) = Some s ->
+  run c s ls = Some s' -> file s' = Some i -> factor c * interval c < now s' - now s0 ->
+  cs s' w = CTry ec ->
+  content s' i = FMeta cr (Some u) /\
+  exists s4 ec', run c s' [LTryCreate w; LOpenRead w; LRemove w; LTryCreate w] = Some s4 /\
+                 cs s4 w = CCreated ec' (nexti s') /\ file s4 = Some (nexti s') /\ now s4 = now s'.
+Proof.
+  intros HB Hh Hf Hc Hk Hr Hf' Hlate Hw.
+  pose proof (kill_abandons s0 t i s HB Hh Hf Hk) as Ha.
+  pose proof (HBInv_step c Hchk Hcfg s0 _ s HB Hk) as HBs.
+  assert (Hcs : content s i = content s0 i /\ now s = now s0).
+  { cbn [step] in Hk. injection Hk as <-. cbn. auto. }
+  destruct Hcs as [Hcs Hns].
+  destruct (abandoned_run ls s s' i HBs Ha Hr Hf') as (Hc' & _ & _ & Hnow).
+  assert (Hcont : content s' i = FMeta cr (Some u)) by congruence.
+  split; [assumption|]. apply (stale_obtainable s' i cr (Some u) w ec); auto.
+  pose proof (HB_time c s0 HB i cr u Hc) as Hu. unfold is_stale. apply Z.ltb_lt. lia.
+Qed.
+
+(** the same when the holder died while the file was empty (in the creation or truncate
+    gap): the file stays empty, and every read of it counts towards the retry limit *)
+Theorem empty_recovers s0 t i s ls s' :
+  HBInv c s0 -> cs s0 t = CHolding i -> file s0 = Some i -> content s0 i = FEmpty ->
+  step c s0 (LKill (cproc s0 t)) = Some s ->
+  run c s ls = Some s' -> file s' = Some i ->
+  content s' i = FEmpty /\
+  forall w ec, cs s' w = CExists ec ->
+    exists s1, step c s' (LOpenRead w) = Some s1 /\
+      cs s1 w = if (S ec <? retries c)%nat then CSleep (S ec) (now s' + esleep c) else CStale (S ec).
+Proof.
+  intros HB Hh Hf Hc Hk Hr Hf'.
+  pose proof (kill_abandons s0 t i s HB Hh Hf Hk) as Ha.
+  pose proof (HBInv_step c Hchk Hcfg s0 _ s HB Hk) as HBs.
+  assert (Hcs : content s i = content s0 i) by (cbn [step] in Hk; injection Hk as <-; reflexivity).
+  destruct (abandoned_run ls s s' i HBs Ha Hr Hf') as (Hc' & _ & _ & _).
+  assert (Hcont : content s' i = FEmpty) by congruence.
+  split; [assumption|]. intros w ec Hw. cbn [step]. rewrite Hw, Hf', Hcont.
+  destruct (S ec <? retries c)%nat; eexists; (split; [reflexivity|]); cbn; rewrite upd_eq; reflexivity.
+Qed.
+End PartD.
+
+(** * Two lock files: steps on one never change, enable or disable steps on the other *)
+Lemma step2_independent c s1 s2 l s1' s2' :
+  step2 c (s1, s2) (L1 l) = Some (s1', s2') -> s2' = s2 /\ step c s1 l = Some s1'.
+Proof.
+  cbn. destruct l; cbn [fst snd]; try discriminate;
+    match goal with |- context [step c s1 ?l] => destruct (step c s1 l) eqn:E; [|discriminate] end;
+    intros H; injection H; intros <- <-; auto.
+Qed.
+Lemma step2_enabled c s1 s2 l s2' : step c s2 l = Some s2' ->
+  (forall d, l <> LTick d) -> (forall p, l <> LKill p) -> step2 c (s1, s2) (L2 l) = Some (s1, s2').
+Proof.
+  intros H Hd Hk. destruct l; cbn [step2 fst snd]; try rewrite H; try reflexivity.
+  - destruct (Hd d eq_refl).
+  - destruct (Hk p eq_refl).
 Qed.
